@@ -14,8 +14,10 @@ def build_lean(targets=("FinProtoc", "fpdriver")):
         return p.returncode == 0, p.stdout + p.stderr
 
 
-def run_ops(reqs, timeout=1200):
+def run_ops(reqs, timeout=None):
     payload = "".join(json.dumps(r) + "\n" for r in reqs)
+    if timeout is None:
+        timeout = max(3600, 5 * len(reqs))       # generous: a verdict must not depend on how busy the machine is
     p = subprocess.run([FPDRIVER], input=payload, capture_output=True, text=True, timeout=timeout)
     lines = [l for l in p.stdout.split("\n") if l]
     out = []
